@@ -27,8 +27,15 @@ CheckCtorProbe(e) ==
     \* vacuity control: every probe must yield a value for a well-formed type
     control |-> WellFormed(e.bits, e.limbs) => e.outcome = "obtained" ]
 
+(* bytemuck::Pod lets safe code reinterpret ANY bytes as the type, so it may be implemented only where every bit pattern is   *)
+(* canonical (no unused bits: BITS a multiple of 64); the probe reads all-ones bytes.                                         *)
+CheckPodProbe(e) ==
+  [ pod_only_without_unused_bits |-> (e.outcome = "obtained") => (e.bits % 64 = 0),
+    control |-> (e.bits % 64 = 0 /\ e.bits > 0 /\ e.bits <= 1024) => e.outcome = "obtained" ]
+
 CheckCanon(e) ==
   CASE e.op = "gen" -> CheckGen(e)
     [] e.op = "ctor_probe" -> CheckCtorProbe(e)
+    [] e.op = "pod_probe" -> CheckPodProbe(e)
     [] OTHER -> [unknown_op |-> FALSE]
 =============================================================================
